@@ -32,7 +32,7 @@ TARGETS = {
     'kexdh.py': (['recv_reply', '__parse_reply', '__parse_ca_key', '__get_bytes', '__adjust_key_size', 'get_hostkey_size', 'get_ca_size', 'get_dh_modulus_size', 'send_init_gex', 'send_init', 'set_params'], ['C11', 'C09', 'C12']),
     'hostkeytest.py': (None, ['C11', 'C19', 'C03', 'C17', 'C09']),
     'gextest.py': (['run', '_send_init', 'reconnect'], ['C19', 'C09', 'C12']),
-    'dheat.py': (['dh_rate_test', '_dh_rate_test'], ['C19']),
+    'dheat.py': (['dh_rate_test', '_dh_rate_test'], ['C19', 'C09']),
     'ssh2_kexdb.py': (['get_db', 'thread_exit'], ['C07', 'C17', 'C03', 'C04', 'C02']),
     'outputbuffer.py': (None, ['C15', 'C01', 'C08']),
     'auditconf.py': (None, ['C18', 'C15']),
